@@ -155,6 +155,15 @@ func c14Scenario(c *choice.Ctx, rep *report.R, k c14Kind) {
 	}
 	note("warm=%d(conns=%d)", w, d.NumConns())
 	pooled := d.NumConns()
+	// non-initial state: the pooled pipelined connection is at the end of its id space
+	if pt, ok := tr.(*PipelineTransport); ok && w > 0 && c.Choose(2, "id-counter-near-end") == 1 {
+		for _, pc := range poolConns(pt.pool) {
+			pc.m.Lock()
+			pc.nextQid = 65535
+			pc.m.Unlock()
+		}
+		note("ids-left=1")
+	}
 
 	// ---- phase 2: faults on pooled (idle) connections; each non-default answer is one fault
 	idleWait := c.Choose(2, "idle-wait")
@@ -303,8 +312,8 @@ func c14Scenario(c *choice.Ctx, rep *report.R, k c14Kind) {
 			if !mine {
 				continue
 			}
-			if cl.inflight() && d.NumDials() > dialsAtFault {
-				continue // it was retried at once (and the retry is now subject to the scripted dial fault)
+			if cl.inflight() && (d.NumDials() > dialsAtFault || d.Hanging() > 0) {
+				continue // it was retried at once (and the retry is now subject to the scripted dial fault, possibly by joining a dial already in progress)
 			}
 			if cl.inflight() {
 				fail("waiter-not-released", fmt.Sprintf("exchange %d still waiting after its connection died (%s)", cl.idx, fname))
@@ -378,7 +387,7 @@ func TestVerifC14(t *testing.T) {
 	rep := report.New("C14 deadlines and stale connections")
 	defer rep.Write()
 	bound := report.ParamInt("FAULTS", 2)
-	rep.Rule = fmt.Sprintf("E3 fault enumeration on the real pipeline-tcp, pipeline-udp and reuse-tcp transports in a synctest bubble: warm 0..2 pooled exchanges; optional 5s idle; per pooled connection {ok, FIN, abort, garbage+FIN} while idle; "+
+	rep.Rule = fmt.Sprintf("E3 fault enumeration on the real pipeline-tcp, pipeline-udp and reuse-tcp transports in a synctest bubble: warm 0..2 pooled exchanges; pooled pipelined connection with its id counter at 0 or at 65535 (one id left); optional 5s idle; per pooled connection {ok, FIN, abort, garbage+FIN} while idle; "+
 		"then 1..2 concurrent exchanges with next dial {ok, refused, hangs} and first-connection fault {%s}; <=%d faults per execution, all combinations; afterwards a healthy server; "+
 		"oracle: return by deadline (exact virtual clock), success in zero virtual time when only pooled connections are stale, waiters released in the instant their connection dies, <=7 dials per exchange, no (nil,nil), "+
 		"transport still usable afterwards, ownership audit", strings.Join(c14Faults, ","), bound)
